@@ -43,6 +43,10 @@ HOME_PARAMS = [('p_int', INT), ('p_str', STR), ('p_bool', BOOL), ('p_flag', FLAG
 ENUMERATORS = ['Red', 'Green', 'Blue']
 ENUMERATORS2 = ['Blue', 'Happy', 'Red']        # shares names with Color on purpose
 CONSTS = [('C_INT', INT, '42'), ('C_STR', STR, 'hello'), ('C_BOOL', BOOL, 'true')]
+# a second group: one of its constants shares its name with a constant of the first group
+CONSTS2 = [('C_INT', INT, '7'), ('L_STR', STR, 'lim')]
+CONST_GROUPS = [('Consts', CONSTS), ('Limits', CONSTS2)]
+UNIQUE_CONSTANT_NAMES = set(['C_STR', 'C_BOOL', 'L_STR'])
 HOMES = ('function', 'bridge', 'operation', 'derived')
 VOID_HOMES = ('bridge', 'derived', 'state', 'transition')      # their bodies return no value
 # outside the quantified domain of C05/C06/C08 (explored by C06 without verdict): state machine actions
@@ -83,7 +87,7 @@ def diagram():
     brgs = [bp.Callable_(n, r, p, '') for n, (r, p) in BRIDGES.items()]
     brgs.append(bp.Callable_('home_brg', VOID, HOME_PARAMS, ''))     # a home without return value
     d.ees = [('External', 'EX', brgs, 'pkg')]
-    d.constants = [('Consts', list(CONSTS), 'pkg')]
+    d.constants = [('Consts', list(CONSTS), 'pkg'), ('Limits', list(CONSTS2), 'pkg')]
     for (kl, kind), evs in EVENTS.items():
         events = [bp.Event(n, m, data) for n, m, data in evs]
         states, txns = [], []
@@ -215,7 +219,14 @@ class Gen(object):
         udt = FLAG if base == BOOL else COUNT if base == INT else None
         if udt is None or r.random() >= 0.25:
             return None
+        return self.udt_read(udt, selected_kind)
+
+    def udt_read(self, udt, selected_kind=None):
+        '''a read of an attribute, parameter or variable of the user type *udt*, or None'''
+        r = self.rng
         cands = []
+        for n, t in self.vars_of(lambda t: t == udt):
+            cands.extend([lambda n=n: om.var(n)] * 2)
         for n, t in self.inst_vars():
             for a, at in CLASSES[t[1]]:
                 if at == udt:
@@ -393,13 +404,15 @@ class Gen(object):
                 word = 'param' if self.home not in HOME_EVENT_DATA or r.random() < 0.5 else 'rcvd_evt'
                 return T(om.param(r.choice(ps), word), ty)
         if k < 0.48:
-            cs = [c for c in CONSTS if c[1] == ty]
+            cs = [(g, c) for g, group in CONST_GROUPS for c in group if c[1] == ty]
             if cs:
-                c = r.choice(cs)[0]
-                if self.bare_constants and r.random() < 0.4 and self.lookup(c) is None:
+                g, c = r.choice(cs)
+                c = c[0]
+                if (self.bare_constants and c in UNIQUE_CONSTANT_NAMES and r.random() < 0.4
+                        and self.lookup(c) is None):
                     om.STATS['bare-constant'] = om.STATS.get('bare-constant', 0) + 1
                     return T(om.var(c), ty)
-                return T(om.enum('Consts', c), ty)
+                return T(om.enum(g, c), ty)
         if k < 0.56 and depth > 0:
             e = self.invocation(ty, depth, selected_kind)
             if e is not None:
@@ -501,6 +514,18 @@ class Gen(object):
         if self.in_loop:
             kinds += ['break', 'continue']
         k = r.choice(kinds)
+        if k == 'assign' and r.random() < 0.12:
+            # a variable that gets a user type: its first value is read from an attribute, a parameter or a
+            # variable declared with that type
+            ty = r.choice((FLAG, COUNT))
+            e = self.udt_read(ty)
+            if e is not None:
+                vs = self.vars_of(lambda t: t == ty)
+                name = r.choice(vs)[0] if vs and r.random() < 0.3 else self.fresh()
+                om.STATS['udt-variable'] = om.STATS.get('udt-variable', 0) + 1
+                st = om.assign(T(om.var(name), ty), e)
+                self.declare(name, ty)
+                return st
         if k == 'assign':
             ty = r.choice((INT, INT, STR, BOOL, REAL, ENUM, ENUM2, UID))
             if ty == UID and self.uid_read() is None:
